@@ -254,6 +254,9 @@ func bookkeeping(r *rand.Rand, g *keyGen, t *track, ops *[][]string) {
 	if r.Intn(3) == 0 {
 		*ops = append(*ops, []string{"isempty"}, []string{"fastflags"})
 	}
+	if r.Intn(4) == 0 {
+		*ops = append(*ops, []string{"dbstring"})
+	}
 	hi := t.latest() + 1
 	lo := t.first() - 1
 	if lo < 0 {
